@@ -395,14 +395,58 @@ class LeanCheck:
         return [(rid, [(vk[0], self.act(rid, vk)) for vk in V.get(rid, [])]) for rid in order]
 
 
+C06_JOB_ALARM_S = 300
+
+
+class C06Timeout(BaseException):
+    pass
+
+
+def _c06_alarm(signum, frame):
+    raise C06Timeout()
+
+
 def c06_job(job):
+    import signal
+
+    box = {}
+    signal.signal(signal.SIGALRM, _c06_alarm)
+    signal.alarm(C06_JOB_ALARM_S)
     try:
-        return c06_job_inner(job)
-    except Exception:  # noqa: BLE001 - an error of the harness, never a violation
+        return c06_job_inner(job, box)
+    except C06Timeout:
+        # what was established before the budget ran out is kept (a shared-state leak typically shows in the first
+        # comparison and then makes every further run slower); a timeout alone is a note, never a violation
+        out = box.get("out") or {"job": {k: v for k, v in job.items() if k != "text"}, "parse": "ok", "failures": [], "breaks": [], "runs": 0, "nontrivial": [], "stats": {}}
+        out["stats"] = dict(out.get("stats", {}))
+        out["stats"]["timeouts"] = 1
+        out["nontrivial"] = sorted(set(out.get("nontrivial", [])))
+        return out
+    except Exception as e:  # noqa: BLE001
+        tb = traceback.extract_tb(e.__traceback__)
+        inner = tb[-1].filename if tb else ""
+        out = box.get("out")
+        if out is not None and box.get("stage") and os.path.abspath(inner).startswith(os.path.abspath(common.REPO) + os.sep):
+            # the real code raised.  In the baseline run that is C19's business (the input is skipped here); in a later
+            # run - same input, same configuration minus some rules, or simply again - the baseline did NOT raise, so the
+            # outcome of an analysis depends on what else was analysed
+            out["stats"] = dict(out.get("stats", {}))
+            out["nontrivial"] = sorted(set(out.get("nontrivial", [])))
+            if box["stage"] == "baseline":
+                out["parse"] = "crash: %r" % (e,)
+                out["failures"] = []
+                return out
+            fn = next((f for f in reversed(tb) if "/vsg/rules/" in f.filename), tb[-1])
+            site = os.path.relpath(fn.filename, common.REPO)[:-3].replace("vsg/rules/", "").replace("/", "_")
+            out["failures"].append({"site": site, "kind": "laterRunRaises:%s" % type(e).__name__, "detail": "the baseline check_rules finished, %s raised %r at %s:%d (%s)" % (box["stage"], e, os.path.relpath(tb[-1].filename, common.REPO), tb[-1].lineno, tb[-1].name), "input": box.get("describe", lambda **kw: {})(stage=box["stage"])})
+            return out
+        # an error of the harness, never a violation
         return {"job": {k: v for k, v in job.items() if k != "text"}, "parse": "harness: " + traceback.format_exc()[-1500:], "failures": [], "breaks": [], "runs": 0, "nontrivial": [], "stats": {}}
+    finally:
+        signal.alarm(0)
 
 
-def c06_job_inner(job):
+def c06_job_inner(job, box=None):
     import random
 
     import vsgrun
@@ -412,6 +456,8 @@ def c06_job_inner(job):
 
     t_start = time.time()
     out = {"job": {k: v for k, v in job.items() if k != "text"}, "parse": "ok", "failures": [], "breaks": [], "runs": 0, "nontrivial": [], "stats": collections.Counter(), "writers": {}, "rule_state": {}, "samples": []}
+    if box is not None:
+        box["out"] = out
     cla, oc, style, dicts = c06_config(job)
     text = c06_text(job)
     lines = vsgrun.text_to_lines(text)
@@ -426,6 +472,9 @@ def c06_job_inner(job):
     def fail(site, kind, detail, **kw):
         out["failures"].append({"site": site, "kind": kind, "detail": detail, "input": describe(**kw)})
 
+    if box is None:
+        box = {}
+    box["describe"] = describe
     try:
         o = vsgrun.parse(lines, cla, oc)
     except vexc.ClassifyError:
@@ -439,6 +488,7 @@ def c06_job_inner(job):
     saved0 = save_tokens(lAll0)
     types0 = [type(t) for t in lAll0]
     file0 = file_picture(o)
+    map0 = copy.deepcopy(getattr(o.oTokenMap, "__dict__", {}))
     mod0 = module_state() if job.get("modstate") else None
 
     # ------------------------------------------------------------ 1. baseline with snapshots
@@ -462,7 +512,9 @@ def c06_job_inner(job):
     for r in rl0.rules:
         wrap_ctx(r, ctx0)
     ctx0["after"] = after_analyze
+    box["stage"] = "baseline"
     rl0.check_rules(bAllPhases=True)
+    box["stage"] = "a repeated or reduced run after the baseline"
     ctx0["after"] = None
     order0 = list(ctx0["order"])
     out["runs"] += 1
@@ -494,6 +546,16 @@ def c06_job_inner(job):
         md = state_diff(mod0, module_state())
         for name, how in md[:3]:
             fail("rule_list.check_rules", "analysisWritesModuleState:%s" % name, how)
+    file_leak = file1.get("<token map>") != file0.get("<token map>")
+
+    def restore_file():
+        """only after a write to the file's shared index was reported: later runs start from the parsed index again,
+        so that one leak is one finding and cannot make the remaining runs grow without bound"""
+        if file_leak:
+            o.oTokenMap.__dict__.clear()
+            o.oTokenMap.__dict__.update(copy.deepcopy(map0))
+
+    restore_file()
     rules1 = rule_picture(rl0)
     for rid in rules0:
         if rules0[rid] != rules1[rid]:
@@ -551,6 +613,7 @@ def c06_job_inner(job):
     for k in (1, 2):
         ctx0["order"] = []
         rl0.clear_violations()
+        restore_file()
         if k == 1:
             vparser.item.__setattr__ = hook
         try:
@@ -569,6 +632,7 @@ def c06_job_inner(job):
     for k in (1, 2):
         ctx0["order"] = []
         rl0.clear_violations()
+        restore_file()
         rl0.check_rules(bAllPhases=False)
         out["runs"] += 1
         gated.append((report_of(rl0), list(ctx0["order"]), (rl0.iNumberRulesRan, rl0.lastPhaseRan, bool(rl0.violations))))
@@ -592,6 +656,7 @@ def c06_job_inner(job):
         if o.lAllObjects != lAll0:
             o.lAllObjects[:] = lAll0
         restore_tokens(saved0)
+        restore_file()
 
     def run_with(D, perm=None, ap=True):
         """V(x, c ∖ D) from the state a fresh parse gives, with a fresh rule list"""
@@ -925,6 +990,7 @@ def run_c06(res, tier, tables):
             "rule_attributes_rewritten_by_first_analysis": dict(rule_state.most_common(12)),
             "rules_whose_state_changes_again_on_second_analysis": stats.get("rules_whose_state_changes_again", 0),
             "failure_counts": dict(fail_counts),
+            "jobs_stopped_by_the_per_job_budget": stats.get("timeouts", 0),
             "explore_wall_s": round(time.time() - t0, 1),
         }
     )
